@@ -44,6 +44,8 @@ func runC13(c *Ctx, r *Report) {
 	c13TieBreak(c, r, "C13-c/tie-break")
 	c13Reverse(c, r)
 	c13Calendar(c, r)
+	c13NumberClass(c, r, "C13-f/number-class")
+	c13NaNOrder(c, r, "C13-b/nan-order")
 }
 
 func runC03(c *Ctx, r *Report) {
